@@ -558,3 +558,45 @@ M('C10', 'c10-attachment-live-cache-missing', 'openhtf/core/test_state.py',
   "    self._cached['attachments'][name] = attach_record._asdict()",
   "    pass",
   'attachments missing from the live phase view')
+
+# ---------------------------------------------------------------- C19
+M('C19', 'c19-uid-prefix-match', 'openhtf/util/logs.py',
+  "    return match.group('test_uid') == self.test_uid",
+  "    return match.group('test_uid').startswith(self.test_uid)",
+  'uid compared by prefix: another run whose uid extends this one leaks in')
+M('C19', 'c19-forget-remove-handler', 'openhtf/util/logs.py',
+  "        htf_logger.handlers = [\n            h for h in htf_logger.handlers if h is not handler\n        ]\n        break",
+  "        break",
+  'record handler never removed')
+M('C19', 'c19-inplace-remove', 'openhtf/util/logs.py',
+  "        htf_logger.handlers = [\n            h for h in htf_logger.handlers if h is not handler\n        ]\n        break",
+  "        htf_logger.handlers.remove(handler)\n        break",
+  'handler removed in place again (F15 regression)')
+M('C19', 'c19-framework-logs-dropped', 'openhtf/util/logs.py',
+  "    # Keep framework logs.\n    if not match:\n      return True",
+  "    # Keep framework logs.\n    if not match:\n      return record.name.startswith('openhtf.core')",
+  'framework messages outside openhtf.core are dropped')
+M('C19', 'c19-mac-args-only-str', 'openhtf/util/logs.py',
+  "      record.msg = self.MAC_REPLACE_RE.sub(self.MAC_REPLACEMENT,\n                                           record.getMessage())\n      record.args = ()",
+  "      if isinstance(record.msg, str):\n        record.msg = self.MAC_REPLACE_RE.sub(self.MAC_REPLACEMENT, record.msg)\n        record.args = tuple([\n            self.MAC_REPLACE_RE.sub(self.MAC_REPLACEMENT, str(arg))\n            if isinstance(arg, str) else arg for arg in record.args\n        ])\n      else:\n        record.msg = self.MAC_REPLACE_RE.sub(self.MAC_REPLACEMENT,\n                                             record.getMessage())",
+  'MAC filter rewrites msg and args separately again (F14 regression)')
+M('C19', 'c19-mac-case-sensitive', 'openhtf/util/logs.py',
+  '        """, re.IGNORECASE | re.VERBOSE)',
+  '        """, re.VERBOSE)',
+  'lower-case MACs not redacted')
+M('C19', 'c19-level-name-lost', 'openhtf/util/logs.py',
+  "          record.levelno,\n          record.name,",
+  "          logging.INFO,\n          record.name,",
+  'every record stored with level INFO')
+M('C19', 'c19-timestamp-seconds', 'openhtf/util/logs.py',
+  "          int(record.created * 1000),",
+  "          int(record.created) * 1000,",
+  'timestamp truncated to seconds')
+M('C19', 'c19-emit-twice-on-warning', 'openhtf/util/logs.py',
+  "      self._test_record.add_log_record(log_record)\n      self._notify_update()",
+  "      self._test_record.add_log_record(log_record)\n      if record.levelno >= 30: self._test_record.add_log_record(log_record)\n      self._notify_update()",
+  'warnings are recorded twice')
+M('C19', 'c19-handler-added-in-place-no-lock', 'openhtf/util/logs.py',
+  "    return match.group('test_uid') == self.test_uid",
+  "    return match.group('test_uid') == self.test_uid or record.name.endswith('.phase.p')",
+  'phase loggers named p of other runs leak in')
